@@ -1,6 +1,7 @@
 import HC.Proofs.Verify
 import HC.Proofs.Sound
 import HC.Proofs.UpgradeSound
+import HC.Proofs.UpgradeBytes
 /-!
 # C04 — forged or altered proofs never change what a replica believes
 
@@ -38,8 +39,10 @@ Soundness of acceptance, for every crypto record, as reductions to explicit coll
   replica's last roots are merged upwards into a larger signed root and the block's root may be consumed on
   the way: authenticity flows backwards from the signed roots through every merge (`mergeLoop_back`).
 
-Partial (`sound_partial`): the seek section, hash sections next to an upgrade, and the byte-length
-bookkeeping are not yet covered by theorems; the
+* `sound_upgrade_bytes` : the adopted length and byte length are signed ones (the byte length a replica keeps is
+  the sum of its roots' sizes, an invariant of everything `verify_proof` does).
+
+Partial (`sound_partial`): the seek section and hash sections next to an upgrade are not yet covered by theorems; the
 alteration run checks them on the implementation (after every accepted proof every held block must
 equal the writer's and (length, byte length) must be a prefix sum of the writer's log; refused proofs
 must leave all observations unchanged).
@@ -145,6 +148,25 @@ theorem sound_block_upgrade (C : Crypto) (bs : Array Bytes) (wfork : Nat) (Signe
     (hv : t.verifyProof C f p pk = .ok cs') :
     Sound.Collision C ∨ Sound.TreeCollision C ∨ b.value = bs.getD b.index [] ∨ b.value = (bs.extract 0 cs'.length).getD b.index [] :=
   UpgradeSound.block_upgrade_sound C bs wfork Signed t f pk p b u cs' hb hs hu hcanon hunf hsig hlen hsize hwf hb1 hb2 hT hauth hv
+
+/-- the adopted length and byte length are signed ones: on a replica whose byte length is the sum of its roots'
+    sizes, an accepted upgrade adopts a length `L` the writer signed and, as byte length, the total size of the
+    first `L` blocks of the writer's log -/
+theorem sound_upgrade_bytes (C : Crypto) (bs : Array Bytes) (wfork : Nat) (Signed : Bytes → Prop)
+    (fork : Nat) (u : Codec.DataUpgrade) (blockRoot : Option Codec.Node) (pk : Bytes) (cs cs' : Changeset) (consumed : Bool)
+    (hunf : ∀ m sig, C.verify pk m sig = true → Signed m)
+    (hsig : ∀ m, Signed m → ∃ n, n ≤ bs.size ∧ m = RefTree.signableOf C (bs.extract 0 n) wfork)
+    (hlen : ∀ x, (C.tree x).length = 32) (hsize : bs.size < 2 ^ 64) (hwf : wfork < 2 ^ 64)
+    (hb1 : cs'.length < 2 ^ 64) (hb2 : fork < 2 ^ 64) (hsum : UpgradeBytes.SumOK cs)
+    (h : verifyUpgrade C fork u blockRoot pk cs = .ok (consumed, cs')) :
+    Sound.TreeCollision C ∨ (cs'.length ≤ bs.size ∧ cs'.byteLength = LogSpec.totalBytes (bs.extract 0 cs'.length)) :=
+  UpgradeBytes.upgrade_bytes_sound C bs wfork Signed fork u blockRoot pk cs cs' consumed hunf hsig hlen hsize hwf hb1 hb2 hsum h
+
+/-- non-vacuity of `SumOK`: it holds for every changeset that satisfies the reference-roots invariant -/
+example (C : Crypto) (bsn : Array Bytes) (cs : Changeset) (h : RefProof.RootsOK C bsn cs) : UpgradeBytes.SumOK cs := by
+  unfold UpgradeBytes.SumOK
+  rw [h.bytes, Reopen.roots_of_rootsOK C bsn cs h]
+  exact (Reopen.refRoots_sum C bsn).symm
 
 /-- non-vacuity of `hcanon`: the roots of a tree that satisfies the reference-roots invariant sit at tree positions
     of depth below 64 -/
